@@ -16,4 +16,38 @@ CHECKS["C10"] = {
     "note": "eval() itself is trusted (runs host code, may raise anything, side-effect free by the property's own "
             "assumption); str()/lower()/strip() uninterpreted; metric/log expression call sites are covered by C16/C17.",
 }
+CHECKS["C01"] = {
+    "text": "TriggerHandler.trace_call is proved to let no exception of any class escape (signals {} over every raise "
+            "permitted by its callees' contracts: plugins, evaluated expressions, host dunder methods), to return itself "
+            "(tracing stays on) or None only when nothing is installed, to keep the per-thread callback store consistent "
+            "on every exit, and to perform no write on containers owned by the paused frame; the callees it relies on "
+            "(matching, callback processing, context open/close, expression evaluation) are each proved against their own bodies.",
+    "note": "whole-program observational equivalence is decomposed into these per-call clauses; the action bodies "
+            "(_process_action, result.process, callback.process) enter as 'may raise anything / may modify anything but the "
+            "handler's private state' contracts (encapsulation assumption); frame objects and logging are trusted; no "
+            "asynchronous exceptions.",
+}
+CHECKS["C03"] = {
+    "text": "LineLocation/FunctionLocation.at_location are proved equal to the statement's match predicate for every event, "
+            "file, line and name; location_from_event returns exactly (event, basename(co_filename), f_lineno, co_name); "
+            "__actions_for_location grows its result by exactly the matching trigger's actions per iteration; trace_call "
+            "opens one context per collected action, independently guarded, and none when nothing matches.",
+    "note": "for-each lifting of the per-iteration contracts is trusted; which events CPython delivers is trusted; "
+            "method tracepoints without a name are outside the statement (their safety is C01); list element typing is declared.",
+}
+CHECKS["C11"] = {
+    "text": "The four action builders and build_trigger are proved against the documented argument table over symbolic "
+            "argument maps (every combination of present/absent/arbitrary text values): which actions exist, their exact "
+            "configs and defaults, location kind and position from stage/method_name/span.",
+    "note": "args are Dict[str,str]; Position.from_stage by its own contract; convert_response / add_custom grouping clauses "
+            "are proved separately where listed in the evidence.",
+}
+CHECKS["C15"] = {
+    "text": "ThreadLocal get/set/clear/is_set are proved to touch only the calling thread's entry of the instance's own "
+            "store; CallbackContext.at_location equals the (file, function, opening-event) table; __process_call_backs "
+            "processes the top pending context exactly once iff it matches and leaves the store consistent on every exit.",
+    "note": "frame identity and completion of all matching contexts are recorded known findings; thread interleavings "
+            "and CPython's event order for generators are not modelled; span/capture callbacks enter by coarse contracts "
+            "until refined.",
+}
 NOT_APPLICABLE = {}
